@@ -21,6 +21,7 @@ pub fn run(rep: &mut Report, tier: Tier, sel: &[&str], eval: Eval<'_>) {
             "esc" => u_esc(rep, tier, eval),
             "stmt" => u_stmt(rep, tier, eval),
             "stmt3" => u_stmt3(rep, tier, eval),
+            "inline-stmt" => u_inline_stmt(rep, tier, eval),
             "stmt-small" => u_stmt_small(rep, tier, eval),
             "byte" => u_byte(rep, tier, eval),
             "corpus" => u_corpus(rep, tier, eval),
@@ -336,6 +337,40 @@ fn u_stmt3(rep: &mut Report, tier: Tier, eval: Eval<'_>) {
     let f = |s: &str, acc: &mut Acc| eval(s.as_bytes(), "U-stmt", acc);
     let (total, acc) = sweep_upto(&refs, n, "", "", &f);
     rep.absorb("U-stmt", &format!("alphabet {:?}, path length <= {}, <= {} statements, {} statement forms ([p], [[p]], p = 1 only)", alpha, l, n, st.len()), total, true, t0, acc);
+}
+
+/// the definition rules inside ONE inline table: every sequence of <= 3 key/value pairs over paths of length <= 3
+fn u_inline_stmt(rep: &mut Report, tier: Tier, eval: Eval<'_>) {
+    let t0 = Instant::now();
+    let mut kvs: Vec<String> = Vec::new();
+    for p in key_paths(&["a", "b"], 3, false) {
+        for v in ["1", "{}", "{a=1}", "{b.a=1}", "[]"] {
+            kvs.push(format!("{}={}", p, v));
+        }
+    }
+    let n = tier.pick(3, 3);
+    let mut cases: Vec<String> = Vec::new();
+    let k = kvs.len();
+    for len in 0..=n {
+        for idx in 0..k.pow(len as u32) {
+            let mut i = idx;
+            let mut parts = Vec::new();
+            for _ in 0..len {
+                parts.push(kvs[i % k].as_str());
+                i /= k;
+            }
+            parts.reverse();
+            cases.push(format!("t = {{{}}}\n", parts.join(", ")));
+        }
+    }
+    if tier == Tier::Thorough {
+        // the same pairs one level down: inside an inline table inside an array of an array-of-tables element
+        let extra: Vec<String> = cases.iter().take(k * k + k + 1).map(|c| format!("[[x]]\ny = [{}]\n", c.trim_start_matches("t = ").trim_end())).collect();
+        cases.extend(extra);
+    }
+    let f = |s: &str, acc: &mut Acc| eval(s.as_bytes(), "U-inline-stmt", acc);
+    let (total, acc) = sweep_list(&cases, &f);
+    rep.absorb("U-inline-stmt", &format!("t = {{ ... }} with every sequence of <= {} pairs from {} (paths of length <= 3 over {{a,b}} x 5 values)", n, k), total, true, t0, acc);
 }
 
 fn u_stmt_small(rep: &mut Report, tier: Tier, eval: Eval<'_>) {
